@@ -22,7 +22,7 @@ var (
 )
 
 func boot(t *testing.T) *sim.Sim {
-	bootOnce.Do(func() { theSim, bootErr = sim.Boot(sim.Options{EventDb: true}) })
+	bootOnce.Do(func() { theSim, bootErr = sim.Boot(sim.Options{EventDb: true, ClientFunds: 1e17}) })
 	if bootErr != nil {
 		t.Fatalf("VERIF-HARNESS-ERROR boot: %v", bootErr)
 	}
@@ -54,6 +54,8 @@ func TestC17_FaucetLimits(t *testing.T) {
 			{5, 50, 50, 120, 30 * time.Minute, time.Hour},
 			{1, 1, 3, 5, time.Hour, time.Hour},
 			{10, 1000, 2500, 5000, 2 * time.Hour, 5 * time.Hour},
+			{2, 3, 10, 20, 1500 * time.Millisecond, 2500 * time.Millisecond}, // durations that are not whole seconds
+			{1, 5, 20, 1000, 4 * time.Hour, 5 * time.Hour},                   // individual windows straddle the global rollover
 		}).Draw(t, "config")
 		fields := map[string]string{
 			"pour_amount": fmt.Sprint(c.pour), "max_pour_amount": fmt.Sprint(c.max), "periodic_limit": fmt.Sprint(c.periodic),
@@ -82,7 +84,7 @@ func TestC17_FaucetLimits(t *testing.T) {
 		nontrivial := false
 		for i := 0; i < steps; i++ {
 			if rapid.IntRange(0, 3).Draw(t, "advance") == 0 {
-				secs := rapid.SampledFrom([]int64{1, 59, 60, int64(c.ireset/time.Second) / 2, int64(c.ireset / time.Second), int64(c.ireset/time.Second) + 1, int64(c.greset / time.Second), int64(c.greset/time.Second) + 7}).Draw(t, "seconds")
+				secs := rapid.SampledFrom([]int64{1, 2, 3, 59, 60, int64(c.ireset/time.Second) / 2, int64(c.ireset / time.Second), int64(c.ireset/time.Second) + 1, int64(c.greset / time.Second), int64(c.greset/time.Second) + 7}).Draw(t, "seconds")
 				h.NextBlock(1, secs)
 			}
 			cl := s.Clients[rapid.IntRange(0, nclients-1).Draw(t, "client")]
